@@ -258,6 +258,7 @@ func c09(x *mon.Ctx) {
 	x.Require("pattern", 15, 0, 15)
 	x.Require("enveloped", 0, 40, 40)
 	x.Require("zero-padded", 100, 0, 100)
+	x.Require("content-field-extremes", 1000, 0, 1000)
 	x.Require("inner-type-and-size", 10, 1500, 1900)
 	x.Require("pattern-16MiB", 8, 0, 8)
 
